@@ -3323,6 +3323,16 @@ should_ignore_manifest(const CPPManifest *manifest) const {
  */
 bool CPPPreprocessor::
 should_ignore_preprocessor() const {
+  // Directives only exist in files.  In a string that is parsed as an
+  // expression or a type (the replacement list of a #define, the operand of
+  // #if, a -D definition, a .N command) a '#' is just a stray character:
+  // "#define K #pragma once" must not run the pragma without a file, and
+  // "#define X #define X #define X ..." must not nest a directive per '#'.
+  if (_infile != nullptr && _infile->_manifest == nullptr &&
+      _infile->_file._filename.empty()) {
+    return true;
+  }
+
   InputFile *infile = _infile;
   while (infile != nullptr) {
     if (infile->_ignore_manifest) {
